@@ -118,8 +118,15 @@ def decOutcome : Sexp → Option Outcome
   | .list [.atom "noextern"] => some (.err .noMatchingExtern)
   | _ => none
 
+/-- a declared region; the `(sharing parent (offset type)…)` clause, when present, is decoded away: neither
+`resolve` nor `resolve_return` looks at `MemoryRegion::sharing`, and neither does the model -/
 def decRegion : Sexp → Option (String × Vector)
   | .list [.atom "r", .str n, t, l] => do some (n, ⟨← decTy t, ← l.asNat?⟩)
+  | .list [.atom "r", .str n, t, l, .list (.atom "sharing" :: _)] => do some (n, ⟨← decTy t, ← l.asNat?⟩)
+  | _ => none
+
+def regionShares : Sexp → Option String
+  | .list [.atom "r", .str n, _, _, .list (.atom "sharing" :: _)] => some n
   | _ => none
 
 def decExtern : Sexp → Option (String × Signature)
@@ -206,7 +213,13 @@ def handle (inp out : Sexp) : CaseResult :=
           | some s => (s.params.map (fun p => "slot-" ++ ptypeTag p.ty ++ (if p.mutable then "-mut" else ""))).eraseDups ++
               (if s.ret.isSome then ["slot-return"] else []) ++ [s!"arity{min (arity s) 6}"]
           | none => []
-        let outTags := match o with
+        let shared := rsS.filterMap regionShares
+        let usesShared := args.any (fun | .identifier n => shared.contains n | .memRef n _ => shared.contains n | _ => false)
+        let sharedRet := match target, args with
+          | some s, a :: _ => s.ret.isSome && (match a with | .identifier n => shared.contains n | .memRef n _ => shared.contains n | _ => false)
+          | _, _ => false
+        let outTags := (if usesShared then ["arg-sharing-region"] else []) ++
+          (if sharedRet then ["return-sharing-region"] else []) ++ match o with
           | .ok rs' => "call-ok" :: (rs'.map (fun | .vector .. => "r-vector" | .memRef .. => "r-memref" | .immediate .. => "r-immediate")).eraseDups
           | .err (.parameterCount ..) => ["call-count"]
           | .err (.arguments es) => "call-argerrs" :: s!"nerr{min es.length 4}" ::
